@@ -1,6 +1,7 @@
 """Worker: runs the implementation side of a suite on cases[start:], one result
 pickled per case, under an address-space limit and a per-case alarm.  If a case
 hangs the alarm kills the process; the driver records 'hang' and restarts after it."""
+import faulthandler
 import importlib
 import os
 import pickle
@@ -33,6 +34,9 @@ def main():
     with open(rpath, "ab") as out:
         for i in range(start, len(cases)):
             signal.setitimer(signal.ITIMER_REAL, tmo)
+            # second line of defence: a C-level watchdog that fires even when the interpreter is stuck inside one long C call
+            # (a multi-gigabyte bytes operation) and cannot run the Python-level signal handler
+            faulthandler.dump_traceback_later(tmo + 10, exit=True)
             try:
                 r = st.impl(cases[i])
             except MemoryError:
@@ -50,6 +54,7 @@ def main():
                         break
                 r = {"outcome": "exc", "exc": type(e).__name__, "msg": str(e)[:300], "where": where}
             signal.setitimer(signal.ITIMER_REAL, 0)
+            faulthandler.cancel_dump_traceback_later()
             pickle.dump(r, out)
             out.flush()
 
